@@ -67,6 +67,14 @@ def run_numeric(ck, sc, tier, want):
     nev = 0
     inconclusive = 0
     for f, acc, r in results:
+        if not acc and "Overflow when computing" in (r.error or "") + r.out:
+            # a recorded value far outside the domain of the exact-algebra rules: isolate the events concerned (vlib)
+            n1, bad1 = vlib.validate_collect(os.path.join(SPECDIR, "CNumTrace.tla"), os.path.join(SPECDIR, "CNumTrace.cfg"), [f], sc, timeout=1800)
+            nev += n1
+            for _f, _i, ev in bad1[:30]:
+                ck.violation("trace:%s:%s" % (ev["alt"]["fn"], "reference" if ev["cfg"] == "ref" else "fallback-configuration"),
+                             {"what": "TLC rejected (or could not evaluate the exact-algebra rule on) the recorded value", "configuration": ev["cfg"], "real_width": ev["width"], "event": ev["alt"]})
+            continue
         if not acc:
             raise Broken("trace validation failed to run on %s: %s\n%s" % (f, r.error or r.violation, r.out[-1500:]))
         badidx = sorted(set(int(x) for x in re.findall(r'"TRACE-BAD", (\d+)', r.out)))
